@@ -482,7 +482,11 @@ class CorpusHarness(Harness):
                             # process is killed right at its removal; being newer than the file it vouches for it from then on
                             key = "rejected-extracted-file-vouched-for-by-table-that-survived-kill-at-removal"
                         bad("result", key, f"preparation returned but [{doc_name}] ({len(data)} bytes) differs from the published content ({len(content)} bytes) at byte {firstdiff}; sizes declared: compressed={cfg['declare_compressed']} uncompressed={cfg['declare_uncompressed']}; {how}; initial {init}")
-                    # the offset table positions readers exactly like skipping line by line
+                    # ... together with a line-offset table ...
+                    if not os.path.isfile(fdoc + ".offset"):
+                        left = sorted(x for x in os.listdir(root) if x.startswith(doc_name))
+                        bad("offset-table", "missing" + ("-after-kill" if any(r[0] == "killed" for r in results) else ""), f"preparation returned but there is no offset table for [{doc_name}]; files: {left}; initial {init}")
+                    # ... that positions readers exactly like skipping line by line
                     total_lines = data.count(b"\n")
                     targets = sorted({0, 1, total_lines // 3, total_lines // 2, max(0, total_lines - 1), 49_999, 50_000, 50_001, 55_555} & set(range(0, total_lines + 1)) | ({total_lines // 2} if total_lines else set()))
                     line_starts = None
